@@ -2359,3 +2359,91 @@ def rule_slice_order(ctx, config='dev'):
                         '; '.join('%s (%s)' % (t['s'], v['why']) for b, t, v, inst in lst)))
     r.check_floor()
     return r
+
+
+def _is_state_place(e):
+    """a mutable piece of splitter state: a captured variable, a field of one, or a field behind a parameter"""
+    if not isinstance(e, tuple) or not e:
+        return False
+    if e[0] == 'upvar':
+        return True
+    if e[0] == 'field':
+        return _is_state_place(e[1]) or (isinstance(e[1], tuple) and e[1] and e[1][0] == 'arg')
+    return False
+
+
+def _state_name(e):
+    return e[1] if e[0] == 'upvar' else (_state_name(e[1]) + '.' + e[2] if e[1][0] != 'arg' else e[2])
+
+
+def rule_cursor_forward(ctx, config='dev'):
+    """the column cursor of a text splitter never moves backwards"""
+    from .ropeinv import nz
+    from ..ir import walk
+    f = ctx.facts(config)
+    r = RuleResult('CURSOR-FORWARD', 'a splitter that cuts the generated text at the positions a source map names (the start of each '
+                                     '`WithIndices::substring` is a running column cursor) only ever moves that cursor forward: every '
+                                     'write to it stores 0 at a line start or a value proven >= the cursor (a dominating comparison, '
+                                     '`max`, an increment). A cursor that can move back re-emits text it already delivered, so the '
+                                     'chunks no longer reassemble to source() when the map names columns out of order')
+    r.floor = 2
+    keep = {}
+    analyse_crate(f, keep=keep)
+    for b in f.body_list:
+        if b.promoted is not None:
+            continue
+        cursors = set()
+        for pt, t in b.calls():
+            c = t.get('callee') or {}
+            if c.get('name') == 'substring' and 'WithIndices' in (c.get('path') or '') and len(t['args']) == 3:
+                e = nz(b.expr_of_operand(t['args'][1]))
+                if _is_state_place(e):
+                    cursors.add(e)
+        if not cursors:
+            continue
+        a = keep.get(b.key)
+        for bb in range(len(b.blocks)):
+            if b.is_cleanup(bb):
+                continue
+            for si, st in enumerate(b.stmts(bb)):
+                if st['k'] != 'assign' or not st['p']['pr']:
+                    continue
+                pe = nz(b.expr_of_place(st['p']))
+                if pe not in cursors:
+                    continue
+                rv = st['r']
+                cname = _state_name(pe)
+                inst = '%s: write to the column cursor `%s`' % (b.path, cname)
+                if rv['k'] == 'use' and rv['o']['k'] == 'const' and rv['o'].get('int') == 0:
+                    r.site(inst + ': reset to 0 at a line start', st['s'], 'ok')
+                    continue
+                ok, why = False, 'not analysed'
+                if a is not None and bb in a.block_in:
+                    z = a.block_in[bb].copy()
+                    a.cmp = dict(a.block_cmp.get(bb, {}))
+                    for sj, s2 in enumerate(b.stmts(bb)[:si]):
+                        a.stmt(z, s2, (bb, sj))
+                    cur = a.var_of_place(st['p'])
+                    E = a.operand(rv['o']) if rv['k'] == 'use' else None
+                    if z.bottom or not z.consistent():
+                        ok, why = True, 'unreachable'
+                    elif cur is None or E is None:
+                        why = 'stored value is not a tracked integer'
+                    elif E[0] in a.tainted:
+                        why = 'stored value is computed by a subtraction that is not known to stay >= 0'
+                    else:
+                        bd = z.copy().bound(cur, E[0]) if cur != E[0] else 0
+                        if bd is not None and bd <= E[1]:
+                            ok, why = True, 'cursor - new value <= %d' % (bd - E[1])
+                        else:
+                            why = 'nothing orders the stored value after the current cursor on this path'
+                elif a is not None:
+                    ok, why = True, 'unreachable'
+                r.site(inst + ': ' + why, st['s'], 'ok' if ok else 'violation')
+                if not ok:
+                    r.violation('%s:%s:backwards' % (b.path, cname), st['s'], b.path,
+                                'the column cursor `%s` is overwritten with a value that is not known to be >= its current value (%s): '
+                                'a map segment that names an earlier column on the same line moves the cursor back and the text '
+                                'between is delivered twice' % (cname, why))
+    r.check_floor()
+    return r
